@@ -25,9 +25,13 @@ VERIF = os.path.dirname(os.path.dirname(os.path.abspath(__file__)))
 
 
 class Variant:
-    def __init__(self, prop, name, file, old, new, expect='fire', count=1, rule=None):
+    def __init__(self, prop, name, file, old, new, expect='fire', count=1, rule=None, more=()):
         self.prop, self.name, self.file, self.old, self.new = prop, name, file, old, new
         self.expect, self.count, self.rule = expect, count, rule
+        self.more = list(more)   # further (file, old, new) edits applied together with the first
+
+    def edits(self):
+        return [(self.file, self.old, self.new, self.count)] + [(f, o, n, 1) for f, o, n in self.more]
 
 
 def load_variants() -> List[Variant]:
@@ -37,23 +41,27 @@ def load_variants() -> List[Variant]:
 
 def run_variant(v: Variant, keep=False) -> dict:
     src = os.path.join(repo_root(), PKG)
-    path = os.path.join(src, v.file)
-    with open(path) as f:
-        text = f.read()
-    n = text.count(v.old)
-    if n != v.count:
-        return {'variant': v.name, 'property': v.prop, 'status': 'skipped',
-                'why': 'anchor text occurs %d time(s), expected %d (tree was edited)' % (n, v.count)}
+    texts = {}
+    for fn, old, new, cnt in v.edits():
+        if fn not in texts:
+            with open(os.path.join(src, fn)) as f:
+                texts[fn] = f.read()
+        n = texts[fn].count(old)
+        if n != cnt:
+            return {'variant': v.name, 'property': v.prop, 'status': 'skipped',
+                    'why': 'anchor text occurs %d time(s), expected %d (tree was edited)' % (n, cnt)}
+        texts[fn] = texts[fn].replace(old, new)
     tmp = tempfile.mkdtemp(prefix='pndst_')
     try:
         shutil.copytree(src, os.path.join(tmp, PKG))
-        with open(os.path.join(tmp, PKG, v.file), 'w') as f:
-            f.write(text.replace(v.old, v.new))
-        # the variant must still compile
-        try:
-            compile(text.replace(v.old, v.new), v.file, 'exec')
-        except SyntaxError as exc:
-            return {'variant': v.name, 'property': v.prop, 'status': 'invalid', 'why': 'does not compile: %s' % exc}
+        for fn, text in texts.items():
+            with open(os.path.join(tmp, PKG, fn), 'w') as f:
+                f.write(text)
+            # the variant must still compile
+            try:
+                compile(text, fn, 'exec')
+            except SyntaxError as exc:
+                return {'variant': v.name, 'property': v.prop, 'status': 'invalid', 'why': 'does not compile: %s' % exc}
         env = dict(os.environ, VERIF_REPO=tmp, VERIF_EVIDENCE_DIR=os.path.join(tmp, 'evidence'))
         p = subprocess.run([sys.executable, '-m', 'pnd_static.check', '--property', v.prop],
                            cwd=VERIF, env=env, capture_output=True, text=True, timeout=300)
